@@ -51,6 +51,55 @@ CLAIMS = {
     },
 }
 
+CLAIMS.update({
+    "C03": {
+        "text": "PARTIAL SCOPE (instruction headers of all nine instruction formats). Proves, for every i32 time, u16 opcode, mask, "
+                "difficulty, extra argument and every argument blob of the stated lengths: if write_instr returns Ok then read_instr "
+                "of the written bytes returns the same instruction field for field, consumes exactly instr_size bytes, and the stored "
+                "size field equals the true size as the reader interprets it (blob length symbolic up to 70000); values that do not "
+                "fit are rejected by guards whose own contract (Ok(v) iff representable) is proved on the real function; the end marker "
+                "is recognised. Tests only use everyday values; the narrowing casts this found were silent (exit 0).",
+        "note": "Not decided: file-level tables/counts/offsets/strings (IndexMap + seek code), argument values inside the blob (C12), "
+                "the script-level read/write loops, diagnostics rendering. Round trips use blobs of concrete length 4 (quick) and 0, 12 "
+                "(thorough): a symbolic length makes the reader's EOF path reachable and CBMC diverges. Known finding: TH06/07 timeline "
+                "instruction (time -1, arg0 4) is spelled like the end marker. Trusted: stubs for fmt::format, ErrorReported::new, "
+                "nice_display_path; the guard stubs cut non-fitting paths (their rejection is proved separately).",
+        "design_ref": "DESIGN.md section 5, C03",
+    },
+    "C09": {
+        "text": "PARTIAL SCOPE (second sentence of the property, operator expressions only). Proves for all 19 binary and 14 unary "
+                "operators and every operand value of every type the documented operator classes admit: the type the checker's table "
+                "(binop_ty_from_arg_ty / unop_ty_from_arg_ty) assigns equals the type of the value const_eval produces, the evaluator "
+                "never reaches its type-error panic on accepted combinations, and the operator classes are the documented ones.",
+        "note": "NOT decided: the first sentence (accepted exactly when well-typed, wherever the construct sits) - type_check::Visitor / "
+                "ExprTypeChecker need a CompilerContext and emit diagnostics; types of variables, calls, ternaries, diff switches.",
+        "design_ref": "DESIGN.md section 5, C09",
+    },
+    "C13": {
+        "text": "PARTIAL SCOPE. Proves the label rules on the real TimeAndDifficultyHelper for all i32 times: scripts start at 0, `N:` "
+                "sets, `+N:` adds (wrapping), non-label statements inherit, entering/leaving blocks and leaving statements never change "
+                "the time; and the inverse lemma on the real LabelEmitter: for every (previous time, stored time) pair - negative, "
+                "decreasing, sign-crossing, wrapping - the emitted labels read back by those rules give exactly the stored time, and an "
+                "offset label is emitted once, where the interpreted time equals its stated time.",
+        "note": "Not decided: the Visitor that drives the helper over nested blocks (IdMap), that lowering copies the time into RawInstr "
+                "unchanged, non-literal `+N` (const folding is C11), generate_label_at_offset (BTreeSet). Every AST statement built by "
+                "a harness is mem::forget-ed (drop glue of the recursive AST diverges in CBMC).",
+        "design_ref": "DESIGN.md section 5, C13",
+    },
+    "C15": {
+        "text": "PARTIAL SCOPE (byte-level leaves). Proves the mask stream step and closed form, xor masking being bytewise and an "
+                "involution, null_pad (positive multiple of the block, prefix kept, NUL tail; also unbounded by Verus), trim_first_nul "
+                "(exact prefix before the first NUL), write_cstring/read_cstring_blockwise round trip, and - leaves composed in the "
+                "harness in encode_args/decode_args order - that block-padded and fixed-buffer (with/without terminator) strings come "
+                "back byte for byte for every NUL-free text and every mask triple.",
+        "note": "ASSUMED, not verified: Shift-JIS transcoding (encoding_rs), the order in which encode_args/decode_args call the leaves "
+                "and the furigana state (inside functions neither back end can reach; a reordering there is NOT detected), Pascal length "
+                "prefix, mission.rs cipher, error reporting for unencodable/too long strings. Kani harnesses are bounded in length "
+                "(<= 6 bytes) and labelled bounded.",
+        "design_ref": "DESIGN.md section 5, C15",
+    },
+})
+
 NOT_APPLICABLE = {
     "C01": "whole-pipeline relation between decompile and compile across the LALR parser, the formatter and five file formats; no function in the chain has a contract-expressible spec and neither back end can execute it. Its codec ingredients are claimed separately (C03 C13 C14 C15 C17).",
     "C02": "needs an operational semantics of source and target and a simulation proof over 1400 lines of visitor/closure code over CompilerContext (HashMaps, AST); outside Verus' subset and CBMC's reach. The shared operator semantics is C11.",
